@@ -112,9 +112,9 @@ def run(ck):
         built = []
         for route, order, dd in variants(d, rng):
             dist[route] += 1
-            inp = dict(definition=d, route=route, order=order, decl=dd["decl"], seed=k)
+            inp = dict(definition=d, route=route, order=order, decl=dd["decl"], seed=k, reuse=bool(dist[route] % 2 == 0))
             try:
-                m, _ = mg.build(dd, route=route, rng=np.random.default_rng(k), order=order)
+                m, _ = mg.build(dd, route=route, rng=np.random.default_rng(k), order=order, reuse=inp["reuse"])
                 rb = readback(m, d)
                 pv = c01.pyg_values(m, rb, pt)
                 built.append((route, order, m, rb, pv, inp))
@@ -188,7 +188,8 @@ def replay(ck, data):
     if inp["route"] == "explicit":
         return explicit_route_check(d, dd, pt, m0)
     try:
-        m1, _ = mg.build(dd, route=inp["route"], rng=np.random.default_rng(inp.get("seed", 0)), order=inp.get("order"))
+        m1, _ = mg.build(dd, route=inp["route"], rng=np.random.default_rng(inp.get("seed", 0)), order=inp.get("order"),
+                         reuse=bool(inp.get("reuse")))
         p0, p1 = c01.pyg_values(m0, readback(m0, d), pt), c01.pyg_values(m1, readback(m1, d), pt)
     except Exception as e:          # noqa: BLE001
         return "route %s cannot be built / evaluated: %s: %s" % (inp["route"], type(e).__name__, str(e)[:200])
